@@ -3,7 +3,7 @@ from . import simlib as S
 SUBCMD = "sim"
 IS_TRACE = True
 RUN = "monitor"
-TAGS = {3, 13}
+TAGS = {3, 13, 10}
 RULE = ("tagged datagrams of sizes 8..max+, bursts above the send buffer, drop=true/false, mixed with stream traffic, "
         "loss / duplication / reordering, MTU discovery and black-hole fallback; non-trivial = >= 3 datagrams delivered "
         "and at least one send refused (Blocked/TooLarge) or one datagram lost")
@@ -28,6 +28,17 @@ def gen(rng, n):
             d["FIXED_WINDOW"] = rng.choice([2500, 6000])
         if rng.chance(1, 4):
             d["GSO"] = 10
+        if rng.chance(1, 3):
+            # paced datagrams of alternating size over a path that grows (MTU discovery) and then
+            # starts dropping large packets: the small ones must keep flowing
+            d = S.base(rng, small=True)
+            d.update({"NDGRAM": 2 * rng.range(15, 30), "DGRAM_SIZE": rng.choice([1250, 1300, 1400]), "DGRAM_ALT": 2,
+                      "DGRAM_INTERVAL": rng.choice([200000, 400000]), "DGRAM_DROP": rng.below(2),
+                      "DGRAM_SEND_BUF": 200000, "DGRAM_START": 700000,
+                      "MTUD_UPPER": 1452, "LINK_MTU": 1500, "LINK_MTU_AT": 600000,
+                      "LINK_MTU2": 1200, "STREAM_BYTES": 0, "NBIDI": 0, "NUNI": 1, "CLOSER": 3, "IDLE_MS": 30000,
+                      "MAX_TIME": 90_000_000, "DELAY_MIN": 5000, "DELAY_MAX": 5000, "GSO": 1,
+                      "DELIVER_SMALL": 1})
         cases.append(S.case_of(d))
     return cases
 
